@@ -20,6 +20,17 @@ def g(n):
             a += got
     return a
 
+def gf(n):
+    a = 0
+    try:
+        for i in range(n):
+            a += i
+            yield a
+    finally:
+        a -= 1
+        a -= 1
+    return a
+
 async def co(n):
     a = n
     for i in range(n):
@@ -37,12 +48,22 @@ def driver(spec):
     for kind, n in kinds:
         if kind == 'g':
             tasks.append(['g', g(n), False])
+        elif kind == 'gf':
+            tasks.append(['gf', gf(n), False])
         elif kind == 'co':
             tasks.append(['co', co(n), False])
         else:
             tasks.append(['ag', ag(n), None])
     out = []
     for k in sched:
+        if k < 0:
+            # the task is closed part-way (a consumer that breaks out of its loop): its clean-up lines run now
+            t = tasks[-k - 1]
+            if t[2] is not True:
+                t[1].close()
+                out.append((k, 'closed'))
+                t[2] = True
+            continue
         t = tasks[k]
         if t[2] is True:
             continue
@@ -68,24 +89,37 @@ def driver(spec):
 '''
 
 
+CLEANUP_LINES = [i + 1 for i, l in enumerate(TASK_SRC.split('\n')) if l.strip() == 'a -= 1']
+
+
 def interleavings(counts):
     """all interleavings of tasks with the given numbers of steps"""
     seq = [k for k, c in enumerate(counts) for _ in range(c)]
     return sorted(set(itertools.permutations(seq)))
 
 
+def with_closes(sched, kinds, counts):
+    """the last step of a task of kind 'gf' is a close(): written -(k+1)"""
+    seen = {}
+    out = []
+    for k in sched:
+        seen[k] = seen.get(k, 0) + 1
+        out.append(-(k + 1) if kinds[k][0] == 'gf' and seen[k] == counts[k] else k)
+    return out
+
+
 def task_case(kinds, sched, mode):
     import progs
     prog = {'files': [['prog_lib.py', progs.PRELUDE], ['prog_0.py', TASK_SRC], ['prog_main.py', 'def driver(spec):\n    return driver0(spec)\n']],
-            'funcs': [['prog_0.py', 'g', 'gen'], ['prog_0.py', 'co', 'coro'], ['prog_0.py', 'ag', 'agen'], ['prog_0.py', 'driver', 'plain'],
+            'funcs': [['prog_0.py', 'g', 'gen'], ['prog_0.py', 'gf', 'gen'], ['prog_0.py', 'co', 'coro'], ['prog_0.py', 'ag', 'agen'], ['prog_0.py', 'driver', 'plain'],
                       ['prog_main.py', 'driver', 'plain']],
             'driver': 'driver', 'features': ['tasks']}
     # prog_main.driver calls prog_0.driver under the name driver0
     prog['files'][1][1] = TASK_SRC.replace('def driver(spec):', 'def driver0(spec):')
-    prog['funcs'][3] = ['prog_0.py', 'driver0', 'plain']
-    reg = ['g', 'co', 'ag']
+    prog['funcs'][4] = ['prog_0.py', 'driver0', 'plain']
+    reg = ['g', 'gf', 'co', 'ag']
     if mode == 'decorate':
-        steps = [['decorate', n] for n in ('g', 'co')] + [['add', 'ag']] + [['call', [kinds, list(sched)]], ['snapshot']]
+        steps = [['decorate', n] for n in ('g', 'gf', 'co')] + [['add', 'ag']] + [['call', [kinds, list(sched)]], ['snapshot']]
         # (async generators are decorated in C03/C16; here ag is traced through an outer window only when mode == window)
     else:
         steps = [['add', n] for n in reg] + [['enbc'], ['call', [kinds, list(sched)]], ['disbc'], ['snapshot']]
@@ -99,7 +133,9 @@ def run(ctx):
     confs = [([['g', 2], ['g', 3]], [3, 4]), ([['g', 2], ['co', 2]], [3, 3]), ([['co', 1], ['ag', 2]], [2, 4]),
              ([['g', 1], ['g', 1], ['g', 2]], [2, 2, 3]),
              # two decorated coroutines whose lifetimes overlap without nesting (the first may finish while the second is suspended)
-             ([['co', 1], ['co', 2]], [2, 3])]
+             ([['co', 1], ['co', 2]], [2, 3]),
+             # generators with clean-up lines that are closed part-way, between steps of the others
+             ([['gf', 3], ['gf', 3]], [3, 2]), ([['gf', 2], ['g', 1], ['co', 1]], [2, 2, 2])]
     if not ctx.quick:
         confs += [([['g', 2], ['co', 2], ['ag', 1]], [3, 3, 3]), ([['ag', 2], ['ag', 2]], [4, 4]), ([['g', 3], ['g', 3]], [4, 4]),
                   ([['co', 2], ['co', 2], ['g', 1]], [3, 3, 2])]
@@ -114,11 +150,11 @@ def run(ctx):
             solo = []
             for k in range(len(kinds)):
                 solo.append(len(cases))
-                cases.append(task_case(kinds, [k] * steps[k], mode))
+                cases.append(task_case(kinds, with_closes([k] * steps[k], kinds, steps), mode))
                 meta.append(('solo', None))
             for il in allil:
                 meta.append(('il', solo))
-                cases.append(task_case(kinds, il, mode))
+                cases.append(task_case(kinds, with_closes(il, kinds, steps), mode))
     ctx.log('tasks: %d runs (%d interleavings) on the real code' % (len(cases), sum(1 for m in meta if m[0] == 'il')))
     results = corelib.run_real(build, cases)
     if getattr(ctx, 'driver_ok', True):
@@ -151,6 +187,14 @@ def run(ctx):
                 ctx.fail('interleaved tasks: reported hits differ from the sum of what each task executed',
                          {'finding_class': None, 'kinds': case['kinds'], 'schedule': case['sched'], 'mode': case['mode'],
                           'got': sorted((list(k), v) for k, v in got.items()), 'sum_of_tasks': sorted((list(k), v) for k, v in total.items()), 'case': case})
+            # direct oracle for the clean-up lines: each closed generator ran its `finally:` block once, inside a window in either mode
+            ngf = sum(1 for k, _n in case['kinds'] if k == 'gf')
+            for ln in CLEANUP_LINES:
+                seen = sum(h for (_lab, l), h in got.items() if l == ln)
+                if ngf and seen != ngf:
+                    ctx.fail('interleaved tasks: clean-up line of generators closed part-way not counted once per generator',
+                             {'finding_class': None, 'kinds': case['kinds'], 'schedule': case['sched'], 'mode': case['mode'], 'line': ln,
+                              'hits': seen, 'expected': ngf, 'case': case})
             if len(set(case['sched'])) > 1:
                 nontrivial.add(json.dumps([case['kinds'], case['sched'], case['mode']]))
     # ---------------- threads
